@@ -133,6 +133,149 @@ Proof.
   all: unfold zfirstn, zskipn, len; rewrite firstn_length, skipn_length; lia.
 Qed.
 
+(** ---- canonical integers (5887f54): what INCR / DECR / INCRBY / DECRBY read as a number ---- *)
+Lemma digits_acc_head fuel : forall n, 0 < n < 10 ^ Z.of_nat (S fuel) ->
+  exists c r, digits_acc (S fuel) n [] = c :: r /\ 49 <= c <= 57.
+Proof.
+  induction fuel as [|f IH]; intros n Hn.
+  - change (10 ^ Z.of_nat 1) with 10 in Hn. cbn [digits_acc]. replace (n <? 10) with true by lia.
+    rewrite Z.mod_small by lia. exists (48 + n), []. split; [reflexivity|lia].
+  - remember (S f) as f1. cbn [digits_acc]. destruct (n <? 10) eqn:E.
+    + apply Z.ltb_lt in E. rewrite Z.mod_small by lia. exists (48 + n), []. split; [reflexivity|lia].
+    + apply Z.ltb_ge in E.
+      assert (Hq : 0 < n / 10 < 10 ^ Z.of_nat f1).
+      { split; [apply Z.div_str_pos; lia|]. apply Z.div_lt_upper_bound; [lia|].
+        replace (Z.of_nat (S f1)) with (Z.of_nat f1 + 1) in Hn by lia.
+        rewrite Z.pow_add_r in Hn by lia. lia. }
+      subst f1. destruct (IH _ Hq) as (c & r & Hc & Hr).
+      rewrite digits_acc_app, Hc. exists c, (r ++ [48 + n mod 10]). split; [reflexivity|exact Hr].
+Qed.
+(** a positive number is printed without a leading zero *)
+Lemma print_nat_pos_head n : 0 < n < 10 ^ 40 -> exists c r, print_nat n = c :: r /\ 49 <= c <= 57.
+Proof. intros H. unfold print_nat. apply (digits_acc_head 39). exact H. Qed.
+
+(** round trip: the text of every i64 is canonical and reads back as that number *)
+Lemma parse_canonical_print z : in_i64 z = true -> parse_canonical (print_int z) = Some z.
+Proof.
+  intros Hi. pose proof (parse_i64_print z Hi) as Hp. pose proof i64_lt_pow as Hpow.
+  unfold in_i64, i64_min, i64_max in *. unfold parse_canonical.
+  destruct (Z.compare_spec z 0) as [E|E|E].
+  - subst z. reflexivity.
+  - unfold print_int in *. replace (z <? 0) with true in * by lia.
+    destruct (print_nat_pos_head (- z)) as (c & r & Hc & Hr); [lia|].
+    rewrite Hc in *. cbn [tl]. change (45 =? 45) with true. cbv iota.
+    replace (c =? 48) with false by lia. replace ((49 <=? c) && (c <=? 57)) with true by lia. exact Hp.
+  - unfold print_int in *. replace (z <? 0) with false in * by lia.
+    destruct (print_nat_pos_head z) as (c & r & Hc & Hr); [lia|].
+    rewrite Hc in *. replace (c =? 45) with false by lia. cbv iota.
+    replace (c =? 48) with false by lia. replace ((49 <=? c) && (c <=? 57)) with true by lia. exact Hp.
+Qed.
+(** the canonical reading is a restriction of Rust's [str::parse::<i64>]: same number, fewer texts *)
+Lemma parse_canonical_sub b z : parse_canonical b = Some z -> parse_i64 b = Some z.
+Proof.
+  unfold parse_canonical. destruct b as [|c r]; [discriminate|].
+  destruct (c =? 45) eqn:E45.
+  - apply Z.eqb_eq in E45. subst c. cbn [tl]. destruct r as [|c2 r2]; [discriminate|].
+    destruct (c2 =? 48); [destruct r2; discriminate|].
+    destruct ((49 <=? c2) && (c2 <=? 57)); [auto|discriminate].
+  - destruct (c =? 48) eqn:E48.
+    + apply Z.eqb_eq in E48. subst c. destruct r; [|discriminate]. intros H; inversion H; subst. reflexivity.
+    + destruct ((49 <=? c) && (c <=? 57)); [auto|discriminate].
+Qed.
+Lemma parse_canonical_range b z : parse_canonical b = Some z -> in_i64 z = true.
+Proof.
+  intros H. apply parse_canonical_sub in H. unfold parse_i64, parse_signed in H.
+  match type of H with match ?r with _ => _ end = _ => destruct r as [v|]; [|discriminate] end.
+  unfold in_i64. destruct ((i64_min <=? v) && (v <=? i64_max)) eqn:E; [|discriminate].
+  inversion H; subst. exact E.
+Qed.
+
+(** ... and the converse: the only text read as [z] is the one [print_int] writes.  First for digit
+    strings without a leading zero: printing their value gives them back. *)
+Lemma digits_val_nonneg : forall l acc v, 0 <= acc -> digits_val l acc = Some v -> acc <= v.
+Proof.
+  induction l as [|c l IH]; intros acc v Ha E; cbn [digits_val] in E; [inversion E; subst; lia|].
+  destruct (is_digit c) eqn:Ed; [|discriminate]. unfold is_digit in Ed.
+  assert (acc * 10 + (c - 48) <= v) by (eapply IH; [|exact E]; lia). lia.
+Qed.
+Lemma digits_val_snoc l c acc :
+  digits_val (l ++ [c]) acc =
+  match digits_val l acc with Some a => if is_digit c then Some (a * 10 + (c - 48)) else None | None => None end.
+Proof. rewrite digits_val_app. destruct (digits_val l acc); [|reflexivity]. cbn [digits_val]. destruct (is_digit c); reflexivity. Qed.
+Lemma digits_acc_small fuel n : 0 <= n < 10 -> digits_acc (S fuel) n [] = [48 + n].
+Proof. intros H. cbn [digits_acc]. replace (n <? 10) with true by lia. rewrite Z.mod_small by lia. reflexivity. Qed.
+Lemma digits_print_back : forall l, l <> [] -> hd 0 l <> 48 ->
+  forall v fuel, digits_val l 0 = Some v -> v < 10 ^ Z.of_nat fuel -> digits_acc fuel v [] = l /\ 0 < v.
+Proof.
+  induction l as [|c l' IH] using rev_ind; intros Hne Hh v fuel Hv Hb; [congruence|].
+  rewrite digits_val_snoc in Hv. destruct (digits_val l' 0) as [a|] eqn:Ea; [|discriminate].
+  destruct (is_digit c) eqn:Ed; [|discriminate]. inversion Hv; subst v. unfold is_digit in Ed.
+  pose proof (digits_val_nonneg _ _ _ (Z.le_refl 0) Ea) as Ha.
+  destruct l' as [|c0 l0].
+  - cbn [digits_val] in Ea. inversion Ea; subst a. cbn [app hd] in Hh.
+    destruct fuel as [|f]; [change (10 ^ Z.of_nat 0) with 1 in Hb; lia|].
+    rewrite digits_acc_small by lia. cbn [app]. split; [f_equal; lia|lia].
+  - assert (Hapos : 0 < a).
+    { cbn [app hd] in Hh. pose proof Ea as Ea'. cbn [digits_val] in Ea'.
+      destruct (is_digit c0) eqn:Ed0; [|discriminate]. unfold is_digit in Ed0.
+      apply digits_val_nonneg in Ea'; lia. }
+    destruct fuel as [|f]; [change (10 ^ Z.of_nat 0) with 1 in Hb; lia|].
+    assert (Hb' : a < 10 ^ Z.of_nat f).
+    { replace (Z.of_nat (S f)) with (Z.of_nat f + 1) in Hb by lia. rewrite Z.pow_add_r in Hb by lia. lia. }
+    destruct (IH ltac:(discriminate) Hh a f eq_refl Hb') as (Hp & Hpos).
+    cbn [digits_acc]. replace (a * 10 + (c - 48) <? 10) with false by lia.
+    replace ((a * 10 + (c - 48)) / 10) with a by (apply (Z.div_unique _ 10 a (c - 48)); lia).
+    replace ((a * 10 + (c - 48)) mod 10) with (c - 48) by (apply (Z.mod_unique _ 10 a (c - 48)); lia).
+    rewrite digits_acc_app, Hp. split; [f_equal; f_equal; lia|lia].
+Qed.
+Lemma i64_digits_bound v : v <= 9223372036854775808 -> v < 10 ^ Z.of_nat 40.
+Proof. intros H. change (10 ^ Z.of_nat 40) with 10000000000000000000000000000000000000000. lia. Qed.
+Lemma sign_match_digit c r : is_digit c = true ->
+  match c :: r with
+  | 43 :: d => parse_digits d
+  | 45 :: d => option_map Z.opp (parse_digits d)
+  | _ => parse_digits (c :: r) end = parse_digits (c :: r).
+Proof.
+  unfold is_digit. intros Hd. destruct c as [|p|p]; try reflexivity.
+  do 6 (destruct p as [p|p|]; try reflexivity); lia.
+Qed.
+Lemma parse_canonical_unique b z : parse_canonical b = Some z -> b = print_int z.
+Proof.
+  intros H. pose proof (parse_canonical_sub _ _ H) as Hs.
+  unfold parse_canonical in H. destruct b as [|c r]; [discriminate|].
+  unfold parse_i64, parse_signed in Hs.
+  destruct (c =? 45) eqn:E45.
+  - apply Z.eqb_eq in E45. subst c. cbn [tl] in H. destruct r as [|c2 r2]; [discriminate|].
+    destruct (c2 =? 48) eqn:E48; [destruct r2; discriminate|].
+    destruct ((49 <=? c2) && (c2 <=? 57)) eqn:Ed; [|discriminate]. clear H.
+    unfold parse_digits in Hs. destruct (digits_val (c2 :: r2) 0) as [v|] eqn:Ev; [|discriminate].
+    cbn [option_map] in Hs. destruct ((i64_min <=? - v) && (- v <=? i64_max)) eqn:Er; [|discriminate].
+    inversion Hs; subst z. clear Hs.
+    assert (Hv : v <= 9223372036854775808) by (unfold i64_min in Er; lia).
+    assert (Hh : hd 0 (c2 :: r2) <> 48) by (cbn [hd]; lia).
+    destruct (digits_print_back (c2 :: r2) ltac:(discriminate) Hh v 40%nat Ev (i64_digits_bound v Hv)) as (Hp & Hpos).
+    unfold print_int. replace (- v <? 0) with true by lia. rewrite Z.opp_involutive. unfold print_nat. rewrite Hp. reflexivity.
+  - destruct (c =? 48) eqn:E48.
+    + apply Z.eqb_eq in E48. subst c. destruct r; [|discriminate]. inversion H; subst z. reflexivity.
+    + destruct ((49 <=? c) && (c <=? 57)) eqn:Ed; [|discriminate]. clear H.
+      rewrite sign_match_digit in Hs by (unfold is_digit; lia).
+      unfold parse_digits in Hs. destruct (digits_val (c :: r) 0) as [v|] eqn:Ev; [|discriminate].
+      destruct ((i64_min <=? v) && (v <=? i64_max)) eqn:Er; [|discriminate]. inversion Hs; subst z. clear Hs.
+      assert (Hv : v <= 9223372036854775808) by (unfold i64_max in Er; lia).
+      assert (Hh : hd 0 (c :: r) <> 48) by (cbn [hd]; lia).
+      destruct (digits_print_back (c :: r) ltac:(discriminate) Hh v 40%nat Ev (i64_digits_bound v Hv)) as (Hp & Hpos).
+      unfold print_int. replace (v <? 0) with false by lia. unfold print_nat. rewrite Hp. reflexivity.
+Qed.
+(** so: a stored string is incremented only if it is the canonical text of an i64 *)
+Lemma incr_only_canonical d k inc e b n d' :
+  get_entry d k = Some e -> e_val e = VStr b -> eng_incr_by d k inc = (Some n, d') ->
+  exists cur, b = print_int cur /\ in_i64 cur = true /\ n = cur + inc.
+Proof.
+  intros Hg Hv. unfold eng_incr_by. rewrite Hg, Hv. destruct (parse_canonical b) as [cur|] eqn:Ec; [|discriminate].
+  destruct (in_i64 (cur + inc)); [|discriminate]. intros H; inversion H; subst.
+  exists cur. split; [apply parse_canonical_unique; exact Ec|]. split; [eapply parse_canonical_range; exact Ec|reflexivity].
+Qed.
+
 (** ---- INCR family: checked arithmetic on the decimal value ---- *)
 Lemma incr_by_spec d k inc e cur :
   get_entry d k = Some e -> e_val e = VStr (print_int cur) -> in_i64 cur = true ->
@@ -141,7 +284,7 @@ Lemma incr_by_spec d k inc e cur :
     then (Some (cur + inc), put_entry d k {| e_val := VStr (print_int (cur + inc)); e_exp := e_exp e |})
     else (None, d).
 Proof.
-  intros Hg Hv Hc. unfold eng_incr_by. rewrite Hg, Hv, (parse_i64_print _ Hc). reflexivity.
+  intros Hg Hv Hc. unfold eng_incr_by. rewrite Hg, Hv, (parse_canonical_print _ Hc). reflexivity.
 Qed.
 Lemma incr_by_fresh d k inc : get_entry d k = None ->
   eng_incr_by d k inc = (Some inc, put_entry d k {| e_val := VStr (print_int inc); e_exp := None |}).
@@ -152,7 +295,7 @@ Lemma incr_by_readback d k inc n d' : in_i64 inc = true ->
   in_i64 n = true /\ exists e, get_entry d' k = Some e /\ e_val e = VStr (print_int n).
 Proof.
   intros Hi. unfold eng_incr_by. destruct (get_entry d k) as [e|] eqn:Hg.
-  - destruct (e_val e); try discriminate. destruct (parse_i64 b) as [cur|]; [|discriminate].
+  - destruct (e_val e); try discriminate. destruct (parse_canonical b) as [cur|]; [|discriminate].
     destruct (in_i64 (cur + inc)) eqn:Er; [|discriminate]. intros H; inversion H; subst.
     split; [exact Er|]. eexists. unfold get_entry, put_entry. cbn [d_data].
     rewrite alookup_aset_same. split; reflexivity.
@@ -257,7 +400,7 @@ Proof. unfold h_strlen. atom. Qed.
 Lemma h_getrange_atomic d parts r d' : h_getrange d parts = (r, d') -> is_error r = true -> d' = d.
 Proof. unfold h_getrange. atom. Qed.
 Lemma h_setrange_atomic d parts r d' : h_setrange d parts = (r, d') -> is_error r = true -> d' = d.
-Proof. unfold h_setrange. atom. Qed.
+Proof. unfold h_setrange, eng_setrange. atom. Qed.
 Lemma h_type_atomic d parts r d' : h_type d parts = (r, d') -> is_error r = true -> d' = d.
 Proof. unfold h_type. atom. Qed.
 Lemma h_rename_atomic d parts r d' : h_rename d parts = (r, d') -> is_error r = true -> d' = d.
@@ -454,7 +597,7 @@ Proof.
   - unfold h_append in H1. wf_solve.
   - unfold h_strlen in H1. wf_solve.
   - unfold h_getrange in H1. wf_solve.
-  - unfold h_setrange in H1. wf_solve.
+  - unfold h_setrange, eng_setrange in H1. wf_solve.
   - unfold h_type in H1. wf_solve.
   - unfold h_rename in H1. destruct (negb (nparts parts =? 3)); [inversion H1; subst; exact Hw|].
     destruct (nth_arg parts 1); [|inversion H1; subst; exact Hw].
@@ -588,7 +731,7 @@ Lemma set_nx_spec now d k v :
 Proof.
   intros Hk. unfold h_set. change (nparts _ <? 3) with false. cbv iota.
   cbn [nth_error arg_bytes]. destruct (beq k []) eqn:E; [apply beq_eq in E; congruence|].
-  change (parse_set_opts _ _ None false false) with (SetOpts None true false). cbv iota.
+  change (parse_set_opts _ _ None false false false false) with (SetOpts None true false). cbv iota.
   destruct (eng_exists now d k); reflexivity.
 Qed.
 Lemma set_xx_spec now d k v :
@@ -598,7 +741,7 @@ Lemma set_xx_spec now d k v :
 Proof.
   intros Hk. unfold h_set. change (nparts _ <? 3) with false. cbv iota.
   cbn [nth_error arg_bytes]. destruct (beq k []) eqn:E; [apply beq_eq in E; congruence|].
-  change (parse_set_opts _ _ None false false) with (SetOpts None false true). cbv iota.
+  change (parse_set_opts _ _ None false false false false) with (SetOpts None false true). cbv iota.
   destruct (eng_exists now d k); reflexivity.
 Qed.
 
@@ -626,4 +769,96 @@ Proof.
   - destruct a; try apply IH. rewrite IH. cbn [filter]. destruct (eng_exists now d b).
     + rewrite len_cons. lia.
     + reflexivity.
+Qed.
+
+(** ---- SETRANGE with an empty value (e0df64a): nothing changes, the reply is the current length ---- *)
+Definition cur_len (d : db) (k : bytes) : frame :=
+  match get_entry d k with
+  | Some e => match e_val e with VStr b => r_int (len b) | _ => r_wrongtype end
+  | None => r_int 0
+  end.
+Lemma setrange_empty_noop d k off : eng_setrange d k off [] = (cur_len d k, d).
+Proof.
+  unfold eng_setrange, cur_len. change (len (@nil Z) =? 0) with true. cbv iota.
+  destruct (get_entry d k) as [e|]; [destruct (e_val e)|]; reflexivity.
+Qed.
+(** ... for every offset the argument can spell, through the handler *)
+Lemma h_setrange_empty d nm k a off : parse_usize a = Some off ->
+  h_setrange d [FBulk nm; FBulk k; FBulk a; FBulk []] = (cur_len d k, d).
+Proof.
+  intros Ha. unfold h_setrange. change (negb (nparts _ =? 4)) with false. cbv iota.
+  cbn [nth_arg nth_error arg_bytes]. rewrite Ha. apply setrange_empty_noop.
+Qed.
+(** ... and it agrees with STRLEN *)
+Lemma setrange_empty_is_strlen d nm nm' k a off : parse_usize a = Some off ->
+  h_setrange d [FBulk nm; FBulk k; FBulk a; FBulk []] = h_strlen d [FBulk nm'; FBulk k].
+Proof.
+  intros Ha. rewrite (h_setrange_empty _ _ _ _ _ Ha). unfold h_strlen, cur_len.
+  change (negb (nparts _ =? 2)) with false. cbv iota. cbn [nth_arg nth_error arg_bytes].
+  destruct (get_entry d k) as [e|]; [destruct (e_val e)|]; reflexivity.
+Qed.
+
+(** ---- SET: EX and PX exclude each other (0e6458f), in either order, whatever the two counts are
+    and whatever follows ---- *)
+Definition set_refused (r : setopt) : bool := match r with SetOpts _ _ _ => false | _ => true end.
+Lemma set_opts_ex_px fuel a b tail ttl ex px nx xx :
+  set_refused (parse_set_opts (S (S fuel)) (FBulk (bs "EX") :: FBulk a :: FBulk (bs "PX") :: b :: tail) ttl ex px nx xx) = true /\
+  set_refused (parse_set_opts (S (S fuel)) (FBulk (bs "PX") :: FBulk a :: FBulk (bs "EX") :: b :: tail) ttl ex px nx xx) = true.
+Proof.
+  cbn [parse_set_opts].
+  change (beq (upper (bs "EX")) (bs "EX")) with true. change (beq (upper (bs "PX")) (bs "EX")) with false.
+  change (beq (upper (bs "PX")) (bs "PX")) with true. cbv iota.
+  split.
+  - destruct px; [reflexivity|]. destruct (parse_u64 a) as [n|]; [|reflexivity]. destruct (n =? 0); reflexivity.
+  - destruct ex; [reflexivity|]. destruct (parse_u64 a) as [n|]; [|reflexivity]. destruct (n =? 0); reflexivity.
+Qed.
+Lemma h_set_refused now d nm k v opts :
+  set_refused (parse_set_opts (length (FBulk nm :: FBulk k :: FBulk v :: opts)) opts None false false false false) = true ->
+  h_set now d (FBulk nm :: FBulk k :: FBulk v :: opts) = (r_err, d).
+Proof.
+  intros H. unfold h_set. cbn [nth_error arg_bytes skipn].
+  destruct (nparts _ <? 3); [reflexivity|]. destruct (beq k []); [reflexivity|].
+  destruct (parse_set_opts _ opts None false false false false); [discriminate H|reflexivity|reflexivity].
+Qed.
+Lemma set_ex_px_refused now d nm k v a b tail :
+  h_set now d (FBulk nm :: FBulk k :: FBulk v :: FBulk (bs "EX") :: FBulk a :: FBulk (bs "PX") :: b :: tail) = (r_err, d) /\
+  h_set now d (FBulk nm :: FBulk k :: FBulk v :: FBulk (bs "PX") :: FBulk a :: FBulk (bs "EX") :: b :: tail) = (r_err, d).
+Proof.
+  split; apply h_set_refused; cbn [length]; apply set_opts_ex_px.
+Qed.
+
+(** ---- SETEX / PSETEX (0bd9e72): a count of 0 is refused and stores nothing ---- *)
+Lemma setex_zero_refused m now d parts a : nth_arg parts 2 = Some a -> parse_u64 a = Some 0 ->
+  h_setex m now d parts = (r_err, d).
+Proof.
+  intros Ha Hz. unfold h_setex. destruct (negb (nparts parts =? 4)); [reflexivity|].
+  destruct (nth_arg parts 1); [|reflexivity]. rewrite Ha, Hz. reflexivity.
+Qed.
+(** what SETEX / PSETEX store always has a deadline strictly in the future *)
+Lemma setex_deadline_future m now d parts r d' k e : 0 < m ->
+  h_setex m now d parts = (r, d') -> r = r_ok -> nth_arg parts 1 = Some k ->
+  get_entry d' k = Some e -> exists t, e_exp e = Some t /\ now < t.
+Proof.
+  intros Hm H Hr Hk Hg. unfold h_setex in H. destruct (negb (nparts parts =? 4)); [inversion H; subst; discriminate|].
+  rewrite Hk in H. destruct (nth_arg parts 2) as [a|]; [|inversion H; subst; discriminate].
+  destruct (parse_u64 a) as [n|] eqn:Ea; [|inversion H; subst; discriminate].
+  destruct (n =? 0) eqn:En; [inversion H; subst; discriminate|].
+  destruct (nth_arg parts 3) as [v|]; [|inversion H; subst; discriminate].
+  destruct (ttl_ok (n * m)); [|inversion H; subst; discriminate].
+  assert (Hd : d' = set_value now d k (VStr v) (Some (n * m))) by (inversion H; reflexivity).
+  rewrite Hd, set_value_get in Hg. inversion Hg; subst e. cbn [e_exp].
+  eexists. split; [reflexivity|].
+  assert (0 <= n).
+  { unfold parse_u64, parse_unsigned in Ea.
+    assert (G : forall l acc v0, 0 <= acc -> digits_val l acc = Some v0 -> 0 <= v0).
+    { induction l as [|c l IH]; intros acc v0 Ha0 E; cbn [digits_val] in E; [inversion E; subst; exact Ha0|].
+      destruct (is_digit c) eqn:Ed; [|discriminate]. unfold is_digit in Ed. eapply IH; [|exact E]. lia. }
+    assert (G2 : forall l v0, parse_digits l = Some v0 -> 0 <= v0).
+    { intros l v0. unfold parse_digits. destruct l; [discriminate|]. apply G. lia. }
+    match type of Ea with match ?r with _ => _ end = _ => destruct r as [v0|] eqn:Er; [|discriminate] end.
+    destruct (v0 <=? u64_max); [|discriminate]. inversion Ea; subst.
+    destruct a as [|c a']; [discriminate|].
+    destruct c as [|p|p]; try (apply (G2 _ _ Er)).
+    do 6 (destruct p as [p|p|]; try (apply (G2 _ _ Er))). }
+  apply Z.eqb_neq in En. nia.
 Qed.
